@@ -823,6 +823,11 @@ func rulePollLoops(c *Ctx, r *R) {
 					r.ok(key, site, "bounded range loop over a node list (its own iterations are bounded by program size)")
 					continue
 				}
+				if why, ok := boundedCounterLoop(h, loopBody(h)); ok {
+					// the same loop written with a counter (`for i := k; i < len(x); i++`)
+					r.ok(key, site, "bounded counter loop: "+why)
+					continue
+				}
 				r.bad(key, site, fmt.Sprintf("a feasible cycle returns to this loop head without passing a call of an evaluator entry function or an interrupt poll: blocks %s. A script spinning on this path (e.g. an empty-bodied loop) can never be interrupted", strings.Join(desc, " -> ")))
 			} else {
 				r.ok(key, site, "every feasible cycle through this loop head polls the Interrupt channel")
